@@ -396,3 +396,30 @@ PROPS['C13'] = dict(
                 witnesses=['done', 'alias_entry', 'stored_entry', 'fill_two', 'lookup', 'fill_all']),
            dict(name='ic4_h3', harness='h_ic4', defs=['NOPS=3', 'SYMFREQ=0'], split={'op0': [1, 2], 'q0': R(16), 'op1': R(4)}, tiers=[T], witnesses=['done', 'alias_entry'])],
 )
+
+PROPS['C16'] = dict(
+    claim='The WHOLE real pMPI::mpi_skel<Job>::run (sorting, master construction, dispatch loop, dissemination of the map) with the real '
+          'MPIMaster / MPIWorker classes is executed by several simulated ranks (cooperative threads of the engine, one address space) against '
+          'an MPI model with non-overtaking channels, MPI matching order and nondeterministic delivery: every order in which the in-flight '
+          'messages can be delivered is a fork decided by the solver-backed engine; the numbers of jobs and the job complexities are symbolic.',
+    bounds={Q: 'ranks 1..3, jobs 0..3 (2 ranks) / 0..2 (3 ranks), 2 consecutive rounds with 2 ranks and 0..2 jobs; granularity: a rank runs to '
+               'quiescence, then one message is delivered', T: '3 ranks x 0..3 jobs, 3 rounds with 2 ranks'},
+    assumptions=['MPI model: buffered sends (eager protocol, 4-byte payloads), non-overtaking per (source,destination), matching in posting order, '
+                 'request::test() of an inactive request returns an empty optional (Boost.MPI 1.83 headers)',
+                 'run-to-quiescence granularity: a poll that finds nothing is a no-op, an arrival inside a segment equals an arrival at the next '
+                 'quiescent point followed by one empty iteration (argument in model/mpi_multi.h)',
+                 'every message that was sent is eventually delivered (fairness of the MPI implementation)'],
+    outside=['more ranks / jobs / rounds than the bound', 'real MPI progress semantics beyond the model (rendezvous sends)'],
+    units=[dict(name='dispatch_p1', harness='h_dispatch', defs=['NRANKS=1', 'MAXJOBS=3'], models=[], mpiexec=1, split={'jobs0': R(4)}, max_loop=200000,
+                witnesses=['done', 'all_ranks_finished', 'round_without_jobs', 'more_jobs_than_ranks']),
+           dict(name='dispatch_p2', harness='h_dispatch', defs=['NRANKS=2', 'MAXJOBS=3'], models=[], mpiexec=2, split={'jobs0': R(4)}, max_loop=200000,
+                witnesses=['done', 'all_ranks_finished', 'round_without_jobs', 'fewer_jobs_than_ranks', 'more_jobs_than_ranks']),
+           dict(name='dispatch_p3', harness='h_dispatch', defs=['NRANKS=3', 'MAXJOBS=2'], models=[], mpiexec=3, split={'jobs0': R(3)}, max_loop=200000,
+                witnesses=['done', 'all_ranks_finished', 'round_without_jobs', 'fewer_jobs_than_ranks']),
+           dict(name='dispatch_p2_r2', harness='h_dispatch', defs=['NRANKS=2', 'MAXJOBS=2', 'ROUNDS=2'], models=[], mpiexec=2, split={'jobs0': R(3), 'jobs1': R(3)},
+                max_loop=200000, witnesses=['done', 'all_ranks_finished', 'round_without_jobs']),
+           dict(name='dispatch_p3_j3', harness='h_dispatch', defs=['NRANKS=3', 'MAXJOBS=3'], models=[], mpiexec=3, split={'jobs0': [3], 'c0_0': [1, 2], 'c0_1': [1, 2]},
+                max_loop=200000, tiers=[T], witnesses=['done', 'all_ranks_finished']),
+           dict(name='dispatch_p2_r3', harness='h_dispatch', defs=['NRANKS=2', 'MAXJOBS=2', 'ROUNDS=3'], models=[], mpiexec=2, split={'jobs0': R(3), 'jobs1': R(3), 'jobs2': R(3)},
+                max_loop=200000, tiers=[T], witnesses=['done', 'all_ranks_finished'])],
+)
